@@ -270,6 +270,66 @@ fn source_file_line(rng: &mut Rng, cfg: &Cfg) -> String {
     }
 }
 
+/// A member line derived from `line` (`    a:b:<rest>[:c:d] -> name`) whose numbers are *related*
+/// to it: the next contiguous range (`b+1 : b+1+(b-a)`, originals shifted likewise), the same
+/// start with another (possibly smaller) end, or the same end with another start.
+fn related_member_line(rng: &mut Rng, line: &str) -> Option<String> {
+    let body = line.strip_prefix("    ")?;
+    let (left, name) = body.rsplit_once(" -> ")?;
+    let mut it = left.splitn(3, ':');
+    let a: u64 = it.next()?.parse().ok()?;
+    let b: u64 = it.next()?.parse().ok()?;
+    let rest = it.next()?;
+    if a > (1 << 31) || b > (1 << 31) {
+        return None;
+    }
+    // optional `:c:d` after the closing parenthesis
+    let close = rest.rfind(')')?;
+    let (sig, tail) = rest.split_at(close + 1);
+    let orig: Vec<u64> = tail.split(':').skip(1).filter_map(|x| x.parse().ok()).collect();
+    if orig.iter().any(|x| *x > (1 << 31)) {
+        return None;
+    }
+    // half of the time the related entry is another method (same return type and arguments)
+    let sig_owned: String;
+    let sig: &str = if rng.pct(50) {
+        let open = sig.find('(')?;
+        let start = sig[..open].rfind(|c| c == ' ' || c == '.').map_or(0, |i| i + 1);
+        sig_owned = format!("{}{}{}", &sig[..start], rng.pick(ORIG_METHODS).replace('.', "_"), &sig[open..]);
+        &sig_owned
+    } else {
+        sig
+    };
+    let span = b.saturating_sub(a);
+    match rng.below(4) {
+        0 => {
+            // contiguous continuation
+            let (na, nb) = (b + 1, b + 1 + span);
+            let t = match orig.as_slice() {
+                [c, d] if d >= c && *d < (1 << 31) => format!(":{}:{}", d + 1, d + 1 + (d - c)),
+                [c] => format!(":{}", c + span + 1),
+                _ => tail.to_string(),
+            };
+            Some(format!("    {}:{}:{}{} -> {}", na, nb, sig, t, name))
+        }
+        1 => {
+            let nb = match rng.below(3) { 0 => a.saturating_sub(rng.range(1, 4) as u64), 1 => b + rng.range(1, 4) as u64, _ => b.saturating_sub(1) };
+            Some(format!("    {}:{}:{}{} -> {}", a, nb, sig, tail, name))
+        }
+        2 => {
+            let na = match rng.below(2) { 0 => a + rng.range(1, 3) as u64, _ => a.saturating_sub(1) };
+            Some(format!("    {}:{}:{}{} -> {}", na, b, sig, tail, name))
+        }
+        _ => {
+            // the same obfuscated range with the original end below the original start
+            match orig.as_slice() {
+                [c, _] => Some(format!("    {}:{}:{}:{}:{} -> {}", a, b, sig, c, c.saturating_sub(rng.range(1, 3) as u64), name)),
+                _ => None,
+            }
+        }
+    }
+}
+
 pub fn gen_mapping(rng: &mut Rng, cfg: &Cfg) -> GenMapping {
     let mut lines: Vec<String> = Vec::new();
     // preamble
@@ -404,6 +464,20 @@ pub fn gen_mapping(rng: &mut Rng, cfg: &Cfg) -> GenMapping {
                 // exact repetition (same triple) — by-params de-duplication
                 let last = lines.last().unwrap().clone();
                 lines.push(last);
+            }
+            if rng.pct(9) && range.is_some() {
+                // a neighbour whose numbers are related to the previous entry's (contiguous
+                // continuation, same start / other end, same end / other start, inverted originals)
+                let last = lines.last().unwrap().clone();
+                if let Some(l) = related_member_line(rng, &last) {
+                    lines.push(l);
+                    if rng.pct(30) {
+                        let last = lines.last().unwrap().clone();
+                        if let Some(l2) = related_member_line(rng, &last) {
+                            lines.push(l2);
+                        }
+                    }
+                }
             }
         }
         let members: Vec<String> = lines[block_start..].iter().filter(|l| l.starts_with("    ") && l.contains('(')).cloned().collect();
